@@ -220,3 +220,153 @@ func ZZ_C08_Head(nops, maxreads int) {
 	}
 	zzvrf.Reach("end")
 }
+
+// ZZ_C08_Conc: ncall callers request the same range concurrently through the
+// caching client, under the engine's scheduler (scheduling points: the cache
+// lock, the segment lock, the block lock, goroutine start/end, channel ops).
+// Any node call may fail when failures == 1 (solver Boolean per call).
+//   kind 0: headers+logs   1: blocks+traces   2: blocks+receipts   3: headers only
+func ZZ_C08_Conc(kind, maxreads, budget, ncall, failures int) {
+	node := ZZHonest(100, 1)
+	node.TwoLogs = true
+	zzAllowFail = failures == 1
+	zzStart, zzLimit = 100, 1
+	zzCurFilter = 2
+	c := New("http://node").WithMaxReads(maxreads)
+	var f *glf.Filter
+	switch kind {
+	case 0:
+		f = &glf.Filter{UseHeaders: true, UseLogs: true}
+	case 1:
+		f = &glf.Filter{UseBlocks: true, UseTraces: true}
+	case 2:
+		f = &glf.Filter{UseBlocks: true, UseReceipts: true}
+	default:
+		f = &glf.Filter{UseHeaders: true}
+	}
+	zzvrf.Scheduled(budget, 120)
+	res := make([][]eth.Block, ncall)
+	errs := make([]error, ncall)
+	done := make(chan int)
+	for i := 0; i < ncall; i++ {
+		i := i
+		go func() {
+			res[i], errs[i] = c.Get(context.Background(), "http://node", f, 100, 1)
+			done <- i
+		}()
+	}
+	for i := 0; i < ncall; i++ {
+		<-done
+	}
+	bound := maxreads
+	if bound < 1 {
+		bound = 1
+	}
+	served := 0
+	for i := 0; i < ncall; i++ {
+		if errs[i] != nil {
+			// T2: an error is only ever a node failure of this run, never a cached one
+			zzvrf.Assert(zzFailures > 0, "no-error-served-from-cache")
+			continue
+		}
+		served++
+		zzvrf.Assert(len(res[i]) == 1, "T1-one-block")
+		if len(res[i]) != 1 {
+			return
+		}
+		b := &res[i][0]
+		zzvrf.Assert(b.Num() == 100, "T1-number")
+		if kind != 1 {
+			zzvrf.Assert(zzvrf.BytesEq(b.Header.Hash, node.BlockHash), "T1-hash")
+		}
+		switch kind {
+		case 0:
+			zzvrf.Assert(len(b.Txs) == 1, "T1-transaction-present")
+			if len(b.Txs) == 1 {
+				logs := b.Txs[0].Logs
+				zzvrf.Assert(len(logs) == 2, "T1-logs-neither-lost-nor-duplicated")
+				if len(logs) == 2 {
+					zzvrf.Assert(logs[0].Idx != logs[1].Idx, "T1-no-log-twice")
+				}
+			}
+		case 1:
+			zzvrf.Assert(len(b.Txs) == 1, "T1-one-transaction")
+			if len(b.Txs) == 1 {
+				zzvrf.Assert(len(b.Txs[0].TraceActions) == 1, "T1-trace-actions-as-uncached")
+			}
+		case 2:
+			zzvrf.Assert(len(b.Txs) == 1, "T1-one-transaction")
+			if len(b.Txs) == 1 {
+				zzvrf.Assert(uint64(b.Txs[0].GasUsed) == node.TxGasUsed && len(b.Txs[0].Logs) == 1, "T1-receipt-as-uncached")
+			}
+		}
+	}
+	// T3: served reads need at least ceil(served/bound) successful fetches of
+	// the range. Every data plan starts with exactly one header/block fetch
+	// per segment fill, counted by zzBlockFetches (failed ones included, so
+	// the comparison is only made on failure-free runs).
+	if zzFailures == 0 {
+		need := (served + bound - 1) / bound
+		zzvrf.Assert(zzBlockFetches >= need, "T3-segment-reuse-bounded-by-maxreads")
+	}
+	zzvrf.Reach("end")
+}
+
+// ZZ_C08_HeadConc: two tasks call Latest concurrently while the poller
+// announces a head (or fails), under the engine's scheduler. Every head a
+// caller receives must be a pair the source announced (the poller's or the
+// node's answer to a direct request), hits are not below the caller's floor.
+//   pollerFails 1: the poller reports an error instead of a second head
+func ZZ_C08_HeadConc(maxreads, budget, pollerFails int) {
+	ZZHonest(100, 1)
+	c := New("http://node").WithMaxReads(maxreads)
+	type pair struct {
+		n uint64
+		h []byte
+	}
+	p0 := pair{zzvrf.U64("announce0.num"), zzvrf.Bytes("announce0.hash", 32, 32)}
+	p1 := pair{zzvrf.U64("announce1.num"), zzvrf.Bytes("announce1.hash", 32, 32)}
+	own := pair{zzvrf.U64("node.head"), zzvrf.Bytes("node.head.hash", 32, 32)}
+	zzvrf.Assume(p0.n > 0 && p0.n < 1<<62 && p1.n > 0 && p1.n < 1<<62 && own.n > 0 && own.n < 1<<62)
+	zzHeadNum, zzHeadHash = own.n, own.h
+	var floors [2]uint64
+	floors[0], floors[1] = zzvrf.U64("floor0"), zzvrf.U64("floor1")
+	zzvrf.Assume(floors[0] < 1<<62 && floors[1] < 1<<62)
+	c.lcache.update(eth.Uint64(p0.n), p0.h)
+	zzvrf.Scheduled(budget, 120)
+	var nums [2]uint64
+	var hashes [2][]byte
+	var errs [2]error
+	done := make(chan int)
+	for i := 0; i < 2; i++ {
+		i := i
+		go func() {
+			nums[i], hashes[i], errs[i] = c.Latest(context.Background(), "http://node", floors[i])
+			done <- i
+		}()
+	}
+	go func() {
+		if pollerFails == 1 {
+			c.lcache.error(errors.New("poller"))
+		} else {
+			c.lcache.update(eth.Uint64(p1.n), p1.h)
+		}
+		done <- 2
+	}()
+	<-done
+	<-done
+	<-done
+	for i := 0; i < 2; i++ {
+		zzvrf.Assert(errs[i] == nil, "latest-ok")
+		if errs[i] != nil {
+			return
+		}
+		ok := zzvrf.And(nums[i] == own.n, zzvrf.BytesEq(hashes[i], own.h))
+		ok = zzvrf.Or(ok, zzvrf.And(nums[i] == p0.n, zzvrf.BytesEq(hashes[i], p0.h)))
+		if pollerFails != 1 {
+			ok = zzvrf.Or(ok, zzvrf.And(nums[i] == p1.n, zzvrf.BytesEq(hashes[i], p1.h)))
+		}
+		zzvrf.Assert(ok, "T4-head-is-an-announced-pair")
+	}
+	zzvrf.Reach("end")
+}
